@@ -502,4 +502,6 @@ func Run(c *hx.Ctx) {
 		emitSelect(c, []string{"thrift", f.Proto}, f.Bytes, "ambiguous-thrift-first")
 		emitSelect(c, []string{f.Proto, "thrift"}, f.Bytes, "ambiguous-bolt-first")
 	}
+	// the connection read loop below Dispatch: real connection on loopback TCP, scripted peer (rl.go)
+	rlCases(c)
 }
